@@ -68,6 +68,7 @@ type RunConfig struct {
 	MaxPaths     int64 // safety valve; exceeding it is an unwinding failure
 	SleepSets    bool
 	Solver       string // "" = z3, "cvc5"
+	OneTrail     []int  // debugging: run exactly this decision vector
 	Sequential   bool // harness is single-goroutine (native replay possible)
 	Params       map[string]int
 }
